@@ -131,6 +131,107 @@ pub mod verif_proofs {
     #[cfg_attr(kani, kani::stub(crate::crypto::hkdf::hkdf, hkdf_stub))]
     pub fn four_requests_windows_le3() { sequence(4, 3); }
 
+    // --------------------------------------------------------------------------------------------
+    // ONE INDUCTIVE STEP from an arbitrary ratchet state satisfying the representation invariant:
+    //   * the head secret is the sender's chain secret of generation `head`;
+    //   * past_secrets[i] belongs to generation head-1-i and is either the sender's material of that
+    //     generation (still unused) or None (already handed out / the marker of a served generation);
+    //   * at most `ooo` entries are kept, none for generations that never existed.
+    // One arbitrary request from such a state: the answer matches the specification AND the post-state
+    // satisfies the invariant again with exactly the expected availability of every generation inside
+    // the out-of-order window. By induction this covers request histories of any length.
+    // --------------------------------------------------------------------------------------------
+    const NG: usize = 8; // generations 0..7 are precomputed from the sender side
+
+    fn chain(init: [u8; MESSAGE_KEY_SIZE]) -> ([[u8; MESSAGE_KEY_SIZE]; NG], [Material; NG]) {
+        // chain secrets (state BEFORE deriving generation g) and materials, from the real sender ratchet
+        let mut secrets = [[0u8; MESSAGE_KEY_SIZE]; NG];
+        let mut mats: [Material; NG] = [([0u8; MESSAGE_KEY_SIZE], [0u8; 12]); NG];
+        let mut y = RatchetSecret::init(Secret::from_bytes(init));
+        let mut g = 0usize;
+        while g < NG {
+            secrets[g] = *y.secret.as_bytes();
+            let (yn, generation, (key, nonce)) = RatchetSecret::ratchet_forward(y).unwrap();
+            assert!(generation as usize == g);
+            mats[g] = (*key.as_bytes(), nonce);
+            std::mem::forget(key);
+            y = yn;
+            g += 1;
+        }
+        std::mem::forget(y);
+        (secrets, mats)
+    }
+    fn pick<T: Copy>(xs: &[T; NG], i: usize) -> T { let mut out = xs[0]; let mut k = 1; while k < NG { if k == i { out = xs[k]; } k += 1; } out }
+
+    #[cfg_attr(kani, kani::proof)]
+    #[cfg_attr(kani, kani::unwind(10))]
+    #[cfg_attr(kani, kani::stub(crate::crypto::hkdf::hkdf, hkdf_stub))]
+    pub fn one_step_from_any_valid_state() {
+        let init = initial_secret();
+        let (secrets, mats) = chain(init);
+        let ooo = sym::any_below(4) as u32;      // out-of-order tolerance 0..=3
+        let max_fwd = sym::any_below(4) as u32;  // forward distance 0..=3
+        sym::assume(ooo + max_fwd <= 5);         // keeps the queue inside the model capacity (6)
+        let head = sym::any_below(5) as u32;     // 0..=4
+        let len = sym::any_below(4) as u32;      // kept entries
+        sym::assume(len <= ooo && len <= head);
+        let avail = [sym::any_bool(), sym::any_bool(), sym::any_bool()];
+        // pre-state
+        let mut past: VecDeque<Option<RatchetKeyMaterial>> = VecDeque::new();
+        let mut i = 0u32;
+        while i < 3 {
+            if i < len {
+                let m = pick(&mats, (head - 1 - i) as usize);
+                past.push_back(if avail[i as usize] { Some((Secret::from_bytes(m.0), m.1)) } else { None });
+            }
+            i += 1;
+        }
+        let y = DecryptionRatchetState { past_secrets: past, ratchet_head: RatchetSecretState { secret: Secret::from_bytes(pick(&secrets, head as usize)), generation: head } };
+        let g = sym::any_below(8) as u32;
+        sym::assume(g <= head + max_fwd + 1 && (g as usize) < NG);
+        let res = DecryptionRatchet::secret_for_decryption(y, g, max_fwd, ooo);
+        // specification
+        let too_future = g > head + max_fwd;
+        let too_past = g < head && head - g > ooo;
+        let idx = if g < head { head - 1 - g } else { 0 };
+        let stored = g < head && idx < len && avail[(idx as usize).min(2)];
+        let expect_ok = !too_future && !too_past && (g >= head || stored);
+        witness!(expect_ok && g < head, "witness: a stored past generation is requested");
+        witness!(expect_ok && g > head, "witness: a jump ahead");
+        witness!(!expect_ok && g < head && !too_past, "witness: an already used generation inside the window is requested");
+        match res {
+            Err(_) => { vassert!(!expect_ok, "C34.step-serve: from any valid state an unused generation inside the windows is served"); }
+            Ok((post, (key, nonce))) => {
+                vassert!(expect_ok, "C34.step-reject: from any valid state a generation outside the windows or already handed out is rejected");
+                vassert!(same_material(key.as_bytes(), &nonce, &pick(&mats, g as usize)), "C34.step-sender-key: the key material handed out is exactly the sender's for that generation");
+                let new_head = if g >= head { g + 1 } else { head };
+                vassert!(post.ratchet_head.generation == new_head, "C34.step-head: the head moves to one past the highest served generation");
+                let hs = pick(&secrets, new_head as usize);
+                vassert!(same_material(post.ratchet_head.secret.as_bytes(), &[0u8; 12], &(hs, [0u8; 12])), "C34.step-chain: the head secret is the sender's chain secret of the new head generation");
+                vassert!(post.past_secrets.len() as u32 <= ooo, "C34.step-window: at most `ooo_tolerance` past entries are kept");
+                // availability of every generation inside the out-of-order window after the step
+                let mut x = 0u32;
+                while x < 8 {
+                    if x < new_head && new_head - x <= ooo {
+                        let was_available = if x >= head { x != g } else { let j = head - 1 - x; j < len && avail[(j as usize).min(2)] && x != g };
+                        let j = new_head - 1 - x;
+                        let entry = post.past_secrets.get(j as usize);
+                        match entry {
+                            Some(Some((k, n))) => {
+                                vassert!(was_available, "C34.step-once: a generation that was handed out (or never skipped) is not available again");
+                                vassert!(same_material(k.as_bytes(), n, &pick(&mats, x as usize)), "C34.step-stored-key: a kept key belongs to its generation");
+                            }
+                            _ => { vassert!(!was_available, "C34.step-keeps: an unused generation inside the out-of-order window stays available"); }
+                        }
+                    }
+                    x += 1;
+                }
+                std::mem::forget(key);
+                std::mem::forget(post);
+            }
+        }
+    }
+
     /// One step from an ARBITRARY head generation (window arithmetic near u32 limits): a request
     /// beyond head + max_fwd is rejected, a request more than `ooo` behind is rejected, the current
     /// head is served.
@@ -172,6 +273,7 @@ pub mod verif_proofs {
 
     pub fn dispatch(name: &str) -> bool {
         match name {
+            "message_scheme::ratchet::verif_proofs::one_step_from_any_valid_state" => one_step_from_any_valid_state(),
             "message_scheme::ratchet::verif_proofs::two_requests_windows_le2" => two_requests_windows_le2(),
             "message_scheme::ratchet::verif_proofs::three_requests_windows_le2" => three_requests_windows_le2(),
             "message_scheme::ratchet::verif_proofs::three_requests_windows_le3" => three_requests_windows_le3(),
